@@ -1041,8 +1041,15 @@ def _bytes_extend(it, b, xs):
     if not b.mutable:
         raise it.exc("AttributeError", "'bytes' object has no attribute 'extend'")
     if isinstance(xs, ABytes) or isinstance(xs, Rope):
-        raise Unsupported("bytearray.extend with a symbolic-length buffer")
-    items = xs.items if isinstance(xs, BytesVal) else it.iterate(xs)
+        # the bytearray becomes a write-only accumulator (used for log messages): any later read is unsupported
+        b.items.append(_OpaqueTail(xs))
+        return
+    if isinstance(xs, BytesVal):
+        # the items of a bytes / bytearray value are bytes already (representation invariant of
+        # BytesVal: every constructor checks or assumes 0..255): no range check, no solver call
+        b.items.extend(xs.items)
+        return
+    items = it.iterate(xs)
     for i in items:
         if isinstance(i, int) and not 0 <= i <= 255:
             raise it.exc("ValueError", "byte must be in range(0, 256)")
@@ -1050,6 +1057,16 @@ def _bytes_extend(it, b, xs):
             if it.path.branch(Not(And(i >= 0, i <= 255))):
                 raise it.exc("ValueError", "byte must be in range(0, 256)")
     b.items.extend(items)
+
+
+class _OpaqueTail:
+    """Marker inside a bytearray that was extended by a symbolic-length buffer."""
+
+    def __init__(self, part):
+        self.part = part
+
+    def __getattr__(self, name):
+        raise Unsupported("read of a bytearray that was extended by a symbolic-length buffer")
 
 
 def _bytes_append(it, b, x):
